@@ -157,6 +157,14 @@ prop("C13",
      note=NETWORLD + "; streams dropped without finish() are excluded (the property speaks of finished streams)")
 
 
+prop("C16",
+     title="The PagedResults adapter returns the whole result set exactly once",
+     rule="scripted paging server holding a result set of 0-200 tokened entries (plus occasional references/intermediates) split into pages by the server: full pages, short and empty pages with live cookies, empty first page, single page, up to 140 pages; cookies of 1-300 random bytes incl. bytes that look like BER and all-zero cookies; requested page sizes 1..2^31-1; adapter alone, behind EntriesOnly and in front of it; 0-5 accompanying request controls and non-default search options; with/without per-item timeout; caller-supplied paging control in the control list (must fail at start, nothing on the wire). Client oracle: entries returned == the result set, each once, in order; final result is the last page's with the paging control stripped and other response controls kept. Server oracle: request 1 carries exactly one paging control with the requested size and an empty cookie; request k+1 equals request k in base/scope/filter/attributes/options/other controls and carries the cookie returned by response k (decoded with the harness' codec); exactly one request per page, none after the first empty cookie. distinct = distinct page layouts x adapter chain",
+     claim="held on every generated paging conversation of this run (pages served and entries transferred are in the evidence)",
+     design="3/C16", technique="scripted paging server with wire-log oracle on the request sequence and client-boundary oracle on the returned entries",
+     note=NETWORLD)
+
+
 # ---- properties not (yet) claimed ----
 def _na():
     out = []
